@@ -210,6 +210,22 @@ def run(rep, tier):
                         rep.ok("C17.R4", fn, "%s reports success only after a successful anchor compare-exchange" % short)
                     else:
                         rep.bad("C17.R4", fn, loc_of(ev), short + ":true-without-cas", "%s returns true without a successful anchor compare-exchange" % short)
+            # an anchor CAS that relinks a deque of >= 2 nodes (not the empty -> one-node push, not the one-node -> empty
+            # pop) reads a neighbour link of an end node; that link is only valid once a pending push on *either* end has
+            # been stabilised, so the CAS must sit on the 'status == stable' edge; every other status goes to stabilize()
+            for b, i, ev in fn.all_events():
+                if ev.get("k") == "call" and callee_short(ev) == "cas" and P(ev.get("recv")).endswith("anchor_"):
+                    fb = ff.before.get((b, i)) or frozenset()
+                    nonempty = any((not t) and re.match(r"^(lrs\.get_(left|right)_ptr\(\) == nullptr|nullptr == lrs\.get_(left|right)_ptr\(\))$", a) for a, t in fb)
+                    single = any(t and a in ("lrs.get_left_ptr() == lrs.get_right_ptr()", "lrs.get_right_ptr() == lrs.get_left_ptr()") for a, t in fb)
+                    if not nonempty or single:
+                        continue
+                    if any(t and re.match(r"^lrs\.get_left_tag\(\) == (pika::concurrency::detail::)?stable$", a) for a, t in fb):
+                        rep.ok("C17.R4", fn, "%s: the multi-node anchor CAS at %s is attempted only when the status is stable" % (short, loc_of(ev)))
+                    else:
+                        rep.bad("C17.R4", fn, loc_of(ev), short + ":cas-unstable", "%s relinks a deque of two or more nodes while a push on the other end may "
+                                "still be unstabilised (the status is not known to be 'stable' at the CAS): it reads a neighbour link that has not "
+                                "been written yet - elements are lost / duplicated, pops fail on a non-empty deque" % short)
             if short.startswith("push"):
                 want = "stabilize_left" if short == "push_left" else "stabilize_right"
                 st = [(b, i, ev) for b, i, ev in fn.all_events() if ev.get("k") == "call" and callee_short(ev) == want]
